@@ -27,7 +27,7 @@ if False:  # pylint: disable=using-constant-test
     import ctypes  # NOQA pylint: disable=unused-import
     from mmap import mmap  # NOQA pylint: disable=unused-import
     import pickle  # NOQA pylint: disable=unused-import
-    from typing import Any, Optional, Union  # NOQA pylint: disable=unused-import
+    from typing import Any, List, Optional, Union  # NOQA pylint: disable=unused-import
 
 
 class PyCdlibIO(io.RawIOBase):
@@ -36,23 +36,65 @@ class PyCdlibIO(io.RawIOBase):
     Since ISOs are generally only readable, this is only a readable context
     manager.
     """
-    __slots__ = ('_ctxt', '_fp', '_length', '_offset', '_open', '_startpos')
+    __slots__ = ('_ctxts', '_extents', '_length', '_offset', '_open')
 
-    def __init__(self, ino, logical_block_size):
-        # type: (inode.Inode, int) -> None
+    def __init__(self, ino, logical_block_size, more_inodes=None):
+        # type: (inode.Inode, int, Optional[List[inode.Inode]]) -> None
         super(PyCdlibIO, self).__init__()  # pylint: disable=super-with-arguments
-        self._ctxt = inode.InodeOpenData(ino, logical_block_size)
+        # A file is usually the data of one Inode; a very large file is
+        # recorded as several extents, each with an Inode of its own.
+        self._ctxts = [inode.InodeOpenData(ino, logical_block_size)]
+        for more in more_inodes or []:
+            self._ctxts.append(inode.InodeOpenData(more, logical_block_size))
         self._open = True
 
     def __enter__(self):
-        # _fp is the real file descriptor.  _length is the logical length
-        # of the file.  _offset is the logical offset of this context
-        # into the file.  _startpos is the absolute offset of the start of
-        # this file into the backing file.
-        (self._fp, self._length) = self._ctxt.__enter__()
-        self._startpos = self._fp.tell()
+        # _extents holds, for each extent of the file, the real file
+        # descriptor, the absolute offset of the start of the extent in that
+        # backing file, and the length of the extent.  _length is the logical
+        # length of the file.  _offset is the logical offset of this context
+        # into the file.
+        self._extents = []
+        self._length = 0
+        for ctxt in self._ctxts:
+            (fp, length) = ctxt.__enter__()
+            self._extents.append((fp, fp.tell(), length))
+            self._length += length
         self._offset = 0
         return self
+
+    def _read_at_offset(self, readsize):
+        # type: (int) -> bytes
+        """
+        An internal method to read up to readsize bytes at the current logical
+        offset, without going past the end of the file, and advance the offset
+        by what was read.
+
+        Parameters:
+         readsize - The number of bytes to read.
+        Returns:
+         The bytes read.
+        """
+        out = []
+        extent_start = 0
+        for (fp, startpos, length) in self._extents:
+            if readsize <= 0:
+                break
+            if self._offset < extent_start + length:
+                within = self._offset - extent_start
+                thislen = min(readsize, length - within)
+                # The underlying file object is shared (with other open
+                # files, with the PyCdlib object itself), so never rely on
+                # where it was left; go to our own position first.
+                fp.seek(startpos + within, 0)
+                data = fp.read(thislen)
+                out.append(data)
+                self._offset += len(data)
+                readsize -= len(data)
+                if len(data) < thislen:
+                    break
+            extent_start += length
+        return b''.join(out)
 
     def read(self, size=None):
         # type: (Optional[int]) -> bytes
@@ -76,13 +118,7 @@ class PyCdlibIO(io.RawIOBase):
         if size is None or size < 0:
             data = self.readall()
         else:
-            readsize = min(self._length - self._offset, size)
-            # The underlying file object is shared (with other open files,
-            # with the PyCdlib object itself), so never rely on where it was
-            # left; go to our own position first.
-            self._fp.seek(self._startpos + self._offset, 0)
-            data = self._fp.read(readsize)
-            self._offset += readsize
+            data = self._read_at_offset(min(self._length - self._offset, size))
 
         return data
 
@@ -102,9 +138,7 @@ class PyCdlibIO(io.RawIOBase):
 
         readsize = self._length - self._offset
         if readsize > 0:
-            self._fp.seek(self._startpos + self._offset, 0)
-            data = self._fp.read(readsize)
-            self._offset += readsize
+            data = self._read_at_offset(readsize)
         else:
             data = b''
 
@@ -120,11 +154,9 @@ class PyCdlibIO(io.RawIOBase):
             mv = memoryview(b)
             m = mv.cast('B')
             readsize = min(readsize, len(m))
-            self._fp.seek(self._startpos + self._offset, 0)
-            data = self._fp.read(readsize)
+            data = self._read_at_offset(readsize)
             n = len(data)
             m[:n] = data
-            self._offset += n
         else:
             n = 0
 
@@ -159,26 +191,17 @@ class PyCdlibIO(io.RawIOBase):
             if offset < 0:
                 raise pycdlibexception.PyCdlibInvalidInput('Invalid offset value (must be positive)')
 
-            if offset < self._length:
-                self._fp.seek(self._startpos + offset, 0)
-
             self._offset = offset
         elif whence == 1:
             # From current file position
             if self._offset + offset < 0:
                 raise pycdlibexception.PyCdlibInvalidInput('Invalid offset value (cannot seek before start of file)')
 
-            if self._offset + offset < self._length:
-                self._fp.seek(self._startpos + self._offset + offset, 0)
-
             self._offset += offset
         elif whence == 2:
             # From end of file
             if offset < 0 and abs(offset) > self._length:
                 raise pycdlibexception.PyCdlibInvalidInput('Invalid offset value (cannot seek before start of file)')
-
-            if self._length + offset < self._length:
-                self._fp.seek(self._startpos + self._length + offset, 0)
 
             self._offset = self._length + offset
         else:
@@ -253,7 +276,9 @@ class PyCdlibIO(io.RawIOBase):
          Nothing.
         """
         self._open = False
-        self._ctxt.__exit__()
+        for ctxt in self._ctxts:
+            ctxt.__exit__()
 
     def __exit__(self, *args):
-        self._ctxt.__exit__()
+        for ctxt in self._ctxts:
+            ctxt.__exit__()
